@@ -127,3 +127,27 @@ REG.contract('C19', U, 'version_compare_condition_with_min',
              requires=['implies(condition.is_empty, condition.min is None and condition.max is None)'],
              abstract_classes=ABS_VERSION, floor=4,
              note='True only if every version satisfying the condition is at least the minimum')
+
+# ---- the version_compare() method of the language: for strings and for meson.version() alike the answer is the answer of
+# version_compare_many on the receiver and the constraint list AS GIVEN (every constraint, `!=` included) — what else the
+# meson.version() flavour does (narrowing the assumed meson version inside an `if`) never changes the answer
+from pyvc.api import TupleS as _TS, Loop as _Loop, Opt as _Opt, Obj
+SP = 'mesonbuild/interpreter/primitives/string.py'
+_VCM = "[e for e in __trace__ if e[0] == 'version_compare_many']"
+_VDROP = ['decorators noKwargs / typed_pos_args / InterpreterObject.method: the argument shapes are checked before the call (precondition: the shape of args)']
+REG.contract('C19', SP, 'StringHolder.version_compare_method',
+             params={'self': Struct('StringHolder', 'mesonbuild.interpreter.primitives.string:StringHolder', held_object=Str, subproject=Str, current_node=Obj),
+                     'args': _TS(List(Str)), 'kwargs': Obj},
+             requires=['len(args[0]) >= 1'],
+             ensures=[f"len({_VCM}) == 1 and {_VCM}[0][1] == self.held_object and {_VCM}[0][2] == args[0]", f"result == {_VCM}[0][-1][0]"],
+             effects={'version_compare_many': {'returns': _TS(Bool, List(Str), List(Str)), 'raises': []}}, dropped=_VDROP, floor=2,
+             note="'v'.version_compare(c1, c2, ...): the answer of version_compare_many(v, [c1, c2, ...]) — every constraint as given, in one call")
+REG.contract('C19', SP, 'MesonVersionStringHolder.version_compare_method',
+             params={'self': Struct('MesonVersionStringHolder', 'mesonbuild.interpreter.primitives.string:MesonVersionStringHolder', held_object=Str, subproject=Str, current_node=Obj, interpreter=Obj),
+                     'args': _TS(List(Str)), 'kwargs': Obj},
+             requires=['len(args[0]) >= 1'],
+             ensures=[f"len({_VCM}) == 1 and {_VCM}[0][1] == self.held_object and {_VCM}[0][2] == args[0]", f"result == {_VCM}[0][-1][0]"],
+             loops={0: _Loop(invariant=['True'], locals={'unsupported': Bool, 'constraint': Str})},
+             effects={'version_compare_many': {'returns': _TS(Bool, List(Str), List(Str)), 'raises': []}, 'version_check_to_range': {'returns': Obj, 'raises': []}},
+             opaque_attrs={'tmp_meson_version': Obj}, dropped=_VDROP, floor=2,
+             note="meson.version().version_compare(c1, ...): the same answer as for any other string — version_compare_many on ALL the constraints given (`!=` ones included); narrowing the assumed meson version is a side effect on the interpreter only")
